@@ -48,6 +48,14 @@ def send (method : Bytes) (p : Payload) (f : Flags) : SendRes :=
     | .absent => .written (callObj method none f.more f.oneway f.upgrade)
     | .val v => .written (callObj method (some v) f.more f.oneway f.upgrade)
 
+/-- `Connection.Call`: `Send` with no flags and a POINTER to its `parameters` argument — `c.Send(ctx, method,
+    &parameters, 0)` —, so that a nil argument is not omitted but written as `"parameters":null` -/
+def callWrapper (method : Bytes) (p : Payload) : SendRes :=
+  match p with
+  | .bad => .encodeError
+  | .absent => .written (callObj method (some .null) false false false)
+  | .val v => .written (callObj method (some v) false false false)
+
 structure ReplyIn where
   params : Option JVal := none
   continues : Bool := false
